@@ -1,3 +1,4 @@
+import Verif.Properties.C01Skeleton
 import Verif.Properties.C01
 import Verif.Properties.C01Move
 #print axioms C01.cert_sound
@@ -9,3 +10,7 @@ import Verif.Properties.C01Move
 #print axioms C01.rewriteSchemaToRef_is_setAt
 #print axioms C01.tiny_targetsOK
 #print axioms C01.tiny_stable
+#print axioms C01.pipeline_keeps_skeleton
+#print axioms C01.pipeline_keeps_plain_parts
+#print axioms C01.pipeline_keeps_paths
+#print axioms C01.pipeline_keeps_path_keys
